@@ -2,6 +2,7 @@
 //! and fuzzing).  See /verif/DESIGN.md.
 pub mod alloc;
 pub mod cli;
+pub mod fuzzdec;
 pub mod hang;
 pub mod interpose;
 pub mod real;
